@@ -374,6 +374,7 @@ func Zoo() *SchemaDesc {
 	objField(sd, "Node", "leaves", nil, ListOf(Obj("Leaf")), nid, NodeLeaves)
 	objField(sd, "Node", "thing", nil, Uni("Thing"), nid, NodeThing)
 	objField(sd, "Node", "things", nil, ListOf(Uni("Thing")), nid, NodeThings)
+	objField(sd, "Node", "solo", nil, Uni("Solo"), nid, NodeSolo)
 	objField(sd, "Node", "item", nil, Obj("Item"), nid, NodeItem)
 	objField(sd, "Node", "bags", nil, ListOf(Obj("Bag")), nid, NodeBags)
 	sd.Types["Node"].KeyField = "id"
@@ -387,6 +388,29 @@ func Zoo() *SchemaDesc {
 		}
 		panic("bad Leaf source")
 	})
+	leafOf := func(src interface{}) *Leaf {
+		switch v := src.(type) {
+		case *Leaf:
+			return v
+		case Leaf:
+			return &v
+		}
+		panic("bad Leaf source")
+	}
+	structField(sd, "Leaf", "pos", Obj("Pt"), func(src interface{}) interface{} { return leafOf(src).Pos })
+	structField(sd, "Leaf", "trail", ListOf(Obj("Pt")), func(src interface{}) interface{} { return leafOf(src).Trail })
+	structField(sd, "Leaf", "grid", ListOf(ListOf(Obj("Pt"))), func(src interface{}) interface{} { return leafOf(src).Grid })
+	ptOf := func(src interface{}) Pt {
+		switch v := src.(type) {
+		case *Pt:
+			return *v
+		case Pt:
+			return v
+		}
+		panic("bad Pt source")
+	}
+	structField(sd, "Pt", "x", Scalar("Int"), func(src interface{}) interface{} { return ptOf(src).X })
+	structField(sd, "Pt", "y", Scalar("Int"), func(src interface{}) interface{} { return ptOf(src).Y })
 	objField(sd, "Leaf", "label", argX, Scalar("String"), lid, LeafLabel)
 	objField(sd, "Leaf", "weight", nil, Scalar("Float"), lid, LeafWeight)
 	objField(sd, "Leaf", "owner", nil, Obj("Node"), lid, LeafOwner)
@@ -461,6 +485,9 @@ func Zoo() *SchemaDesc {
 	objField(sd, "Bag", "total", nil, Scalar("Int"), bid, BagTotal)
 	objField(sd, "Bag", "node", nil, Obj("Node"), bid, BagNode)
 
+	solo := sd.typ("Solo")
+	solo.IsUnion = true
+	solo.Members = []string{"Leaf"}
 	u := sd.typ("Thing")
 	u.IsUnion = true
 	u.Members = []string{"Node", "Leaf"}
@@ -531,7 +558,7 @@ func RegisterInto(s *schemabuilder.Schema, sd *SchemaDesc, cfg Config, env *Env)
 		leafOpts = append(leafOpts, schemabuilder.FetchObjectFromKeys(func(ctx context.Context, args struct{ Keys []*Leaf }) []*Leaf {
 			out := make([]*Leaf, len(args.Keys))
 			for i, k := range args.Keys {
-				out[i] = &Leaf{Id: k.Id, W: worldOf(ctx)}
+				out[i] = &Leaf{Id: k.Id, Pos: k.Pos, Trail: k.Trail, Grid: k.Grid, W: worldOf(ctx)}
 			}
 			return out
 		}))
@@ -548,6 +575,13 @@ func RegisterInto(s *schemabuilder.Schema, sd *SchemaDesc, cfg Config, env *Env)
 		"Node":  s.Object("Node", Node{}, nodeOpts...),
 		"Leaf":  s.Object("Leaf", Leaf{}, leafOpts...),
 		"Item":  s.Object("Item", Item{}, itemOpts...),
+	}
+	if cfg.Service != "" {
+		// an object used inside another object's federated key has to be a
+		// federated object itself (see federation/planner_helpers.go)
+		s.Object("Pt", Pt{}, schemabuilder.FetchObjectFromKeys(func(args struct{ Keys []*Pt }) []*Pt { return args.Keys }))
+	} else {
+		s.Object("Pt", Pt{})
 	}
 	types := []string{"Query", "Node", "Leaf", "Item"}
 	if cfg.Service == "" {
